@@ -67,6 +67,38 @@ fn mk_tag(tag: &Value) -> Option<InstanceUpdateTag> {
     }
 }
 
+/// a process range that contains exactly the services in `own` (of all services the behaviour talks about)
+fn range_for(own: &BTreeSet<String>, all: &BTreeSet<String>) -> Option<rnacos::naming::cluster::model::ProcessRange> {
+    use rnacos::naming::cluster::model::ProcessRange;
+    if !own.is_empty() && own == all {
+        return Some(ProcessRange::new(0, 1));
+    }
+    let hashes: Vec<(String, usize)> = all.iter().map(|s| (s.clone(), rnacos::common::hash_utils::get_hash_value(&skey(s)) as usize)).collect();
+    for len in 2..2000usize {
+        for index in 0..len {
+            let set: BTreeSet<String> = hashes.iter().filter(|(_, h)| h % len == index).map(|(s, _)| s.clone()).collect();
+            if set == *own {
+                return Some(ProcessRange::new(index, len));
+            }
+        }
+    }
+    None
+}
+
+fn all_services(steps: &[Value]) -> BTreeSet<String> {
+    let mut all = BTreeSet::new();
+    for s in steps {
+        if let Some(m) = s["obs"]["inst"].as_object() {
+            all.extend(m.keys().cloned());
+        }
+    }
+    all
+}
+
+fn own_of(s: &Value) -> BTreeSet<String> {
+    s["own"].as_array().cloned().unwrap_or_default().iter().map(|x| x.as_str().unwrap().to_string()).collect()
+}
+
 fn skey(s: &str) -> ServiceKey {
     ServiceKey::new(NS, GROUP, s)
 }
@@ -163,9 +195,18 @@ async fn run_actor(i: usize, b: Value, h: i64, t: i64) -> anyhow::Result<Value> 
     let steps = b["steps"].as_array().cloned().unwrap_or_default();
     let t0 = std::time::Instant::now();
     let mut ticks = 0i64;
+    let all = all_services(&steps);
     for (k, s) in steps.iter().enumerate() {
         let op = s["op"].as_str().unwrap();
         match op {
+            "refresh_range" => {
+                // the node's range of responsibility changes (a node died or joined): the genuine command
+                let range = match range_for(&own_of(s), &all) {
+                    Some(r) => r,
+                    None => return Ok(json!({"kind":"result","i":i,"ok":true,"tool_error":"no process range selects exactly the owned services"})),
+                };
+                addr.send(NamingCmd::ClusterRefreshProcessRange(range)).await??;
+            }
             "register_http" | "register_grpc" | "update_weight" | "beat" => {
                 let inst = mk_instance(s["s"].as_str().unwrap(), s["a"].as_str().unwrap(), &s["new"], 0);
                 addr.send(NamingCmd::Update(inst, mk_tag(&s["tag"]))).await??;
@@ -268,7 +309,8 @@ fn run_service(i: usize, b: &Value, h: i64, t: i64) -> Value {
         match s["op"].as_str().unwrap() {
             "register_http" | "register_grpc" | "update_weight" | "beat" | "sync_update" => {
                 let sn = s["s"].as_str().unwrap();
-                let inst = mk_instance(sn, s["a"].as_str().unwrap(), &s["new"], now);
+                // `eff` = the instance after NamingActor::update_instance adopted it (own range: from_cluster 0, no client id)
+                let inst = mk_instance(sn, s["a"].as_str().unwrap(), if s["eff"].is_object() { &s["eff"] } else { &s["new"] }, now);
                 let from_sync = s["from_sync"].as_bool().unwrap_or(false);
                 hooks::service_update_instance(services.get_mut(sn).unwrap(), inst, mk_tag(&s["tag"]), from_sync);
             }
@@ -285,6 +327,13 @@ fn run_service(i: usize, b: &Value, h: i64, t: i64) -> Value {
                     let exp_m: BTreeSet<String> = s["marked"][sn].as_array().cloned().unwrap_or_default().iter().map(|a| { let (ip, p) = addr_parts(a.as_str().unwrap()); format!("{}:{}", ip, p) }).collect();
                     // the code also reports keys that are no longer present; compare on present effects below
                     let _ = (removed, marked, exp_r, exp_m);
+                }
+            }
+            "refresh_range" => {
+                for sn in own_of(s) {
+                    if let Some(sv) = services.get_mut(&sn) {
+                        hooks::service_refresh_process_range(sv);
+                    }
                 }
             }
             "disconnect" | "clear_empty" => return json!({"kind":"result","i":i,"ok":true,"skipped":"actor-level op"}),
